@@ -832,3 +832,186 @@ Proof.
     apply ap_add; auto using isB_n32. unfold stp. rewrite u53_val. lra.
   - exact HX.
 Qed.
+
+Lemma TF_inv1 t f x : inverse_pair t f = true -> TFid f (TFid t x) = x.
+Proof. destruct t, f; try discriminate; intros _; unfold TFid; field. Qed.
+Lemma TF_inv2 t f x : inverse_pair t f = true -> TFid t (TFid f x) = x.
+Proof. destruct t, f; try discriminate; intros _; unfold TFid; field. Qed.
+
+(* the proved absolute bound, by the to_kelvin functions of the two units:
+   |there-and-back - v| <= 2^-53 * (1 + 1/1024) * (A * |v| + B) *)
+Definition temp_A (ta tb : tempfn) : R :=
+  match ta, tb with
+  | TF_kelvin_to_kelvin, TF_kelvin_to_kelvin => 0
+  | TF_kelvin_to_kelvin, TF_celsius_to_kelvin | TF_celsius_to_kelvin, TF_kelvin_to_kelvin => 2
+  | TF_kelvin_to_kelvin, TF_fahrenheit_to_kelvin | TF_fahrenheit_to_kelvin, TF_kelvin_to_kelvin => 8
+  | TF_celsius_to_kelvin, TF_celsius_to_kelvin => 4
+  | TF_celsius_to_kelvin, TF_fahrenheit_to_kelvin | TF_fahrenheit_to_kelvin, TF_celsius_to_kelvin => 10
+  | TF_fahrenheit_to_kelvin, TF_fahrenheit_to_kelvin => 16
+  | _, _ => 0
+  end.
+Definition temp_B (ta tb : tempfn) : R :=
+  match ta, tb with
+  | TF_kelvin_to_kelvin, TF_kelvin_to_kelvin => 0
+  | TF_kelvin_to_kelvin, TF_celsius_to_kelvin | TF_celsius_to_kelvin, TF_kelvin_to_kelvin => 274
+  | TF_kelvin_to_kelvin, TF_fahrenheit_to_kelvin => 2037
+  | TF_fahrenheit_to_kelvin, TF_kelvin_to_kelvin => 3666
+  | TF_celsius_to_kelvin, TF_celsius_to_kelvin => 1093
+  | TF_celsius_to_kelvin, TF_fahrenheit_to_kelvin => 4495
+  | TF_fahrenheit_to_kelvin, TF_celsius_to_kelvin => 5205
+  | TF_fahrenheit_to_kelvin, TF_fahrenheit_to_kelvin => 11521
+  | _, _ => 0
+  end.
+Definition temp_bound (ta tb : tempfn) (a : R) : R := u53 * (1 + / 1024) * (temp_A ta tb * a + temp_B ta tb).
+
+Lemma apx_weaken X i d d' : apx X i d -> d <= d' -> apx X i d'.
+Proof. intros [r [B H]] L. exists r. split; [exact B|lra]. Qed.
+
+Lemma temp_chain ta fa tb fb X v :
+  isB X v -> inverse_pair ta fa = true -> inverse_pair tb fb = true -> Rabs v <= bpow radix2 1000 ->
+  apx (tempfn_apply fl fa (tempfn_apply fl tb (tempfn_apply fl fb (tempfn_apply fl ta X)))) v
+      (temp_bound ta tb (Rabs v)).
+Proof.
+  intros HX Ia Ib Hv.
+  set (a := Rabs v) in *.
+  assert (Ha : 0 <= a) by apply Rabs_pos.
+  pose proof eta_small as He.
+  assert (HT : Tmax = bpow radix2 1000 * 8388608).
+  { unfold Tmax. change 1023%Z with (1000 + 23)%Z. rewrite bpow_plus. f_equal; simpl; try reflexivity; lra. }
+  assert (HV : 1267650600228229401496703205376 <= bpow radix2 1000).
+  { assert (bpow radix2 100 <= bpow radix2 1000) by (apply bpow_le; discriminate).
+    simpl (bpow radix2 100) in *. lra. }
+  set (V := bpow radix2 1000) in *.
+  remember (TFM ta a) as M1 eqn:EM1. remember (TFM fb M1) as M2 eqn:EM2.
+  assert (P1 : Rabs (TFid ta v) <= M1) by (subst M1; apply TFM_ok; apply Rle_refl).
+  assert (P2 : Rabs (TFid fb (TFid ta v)) <= M2) by (subst M2; apply TFM_ok; exact P1).
+  assert (P3 : Rabs (TFid tb (TFid fb (TFid ta v))) <= M1) by (rewrite (TF_inv2 tb fb) by exact Ib; exact P1).
+  assert (P4 : Rabs (TFid fa (TFid tb (TFid fb (TFid ta v)))) <= a).
+  { rewrite (TF_inv2 tb fb) by exact Ib. rewrite (TF_inv1 ta fa) by exact Ia. apply Rle_refl. }
+  remember (TFd ta 0 a M1) as d1 eqn:E1. remember (TFd fb d1 M1 M2) as d2 eqn:E2.
+  remember (TFd tb d2 M2 M1) as d3 eqn:E3.
+  assert (N : 0 <= d1 /\ 0 <= d2 /\ 0 <= d3 /\
+              M1 + 64 * (a + 0) + 16384 <= Tmax /\ M2 + 64 * (M1 + d1) + 16384 <= Tmax /\
+              M1 + 64 * (M2 + d2) + 16384 <= Tmax /\ a + 64 * (M1 + d3) + 16384 <= Tmax /\
+              TFd fa d3 M1 a <= temp_bound ta tb a).
+  { clear P1 P2 P3 P4 HX.
+    destruct ta, fa; try discriminate Ia; destruct tb, fb; try discriminate Ib;
+      unfold TFd, TFM, temp_bound, temp_A, temp_B, stp in *; rewrite ?u53_val in *; unfold c273 in *;
+      (repeat split); lra. }
+  destruct N as [N1 [N2 [N3 [S1 [S2 [S3 [S4 NB]]]]]]].
+  assert (A0 : apx X v 0).
+  { exists v. split; [exact HX|]. replace (v - v) with 0 by ring. rewrite Rabs_R0. lra. }
+  pose proof (tf_spec ta X v 0 a M1 A0 (Rle_refl a) P1 (Rle_refl 0) S1) as T1. rewrite <- E1 in T1.
+  pose proof (tf_spec fb _ _ d1 M1 M2 T1 P1 P2 N1 S2) as T2. rewrite <- E2 in T2.
+  pose proof (tf_spec tb _ _ d2 M2 M1 T2 P2 P3 N2 S3) as T3. rewrite <- E3 in T3.
+  pose proof (tf_spec fa _ _ d3 M1 a T3 P3 P4 N3 S4) as T4.
+  rewrite (TF_inv2 tb fb) in T4 by exact Ib. rewrite (TF_inv1 ta fa) in T4 by exact Ia.
+  exact (apx_weaken _ _ _ _ T4 NB).
+Qed.
+
+(* valid and finite (zero allowed) *)
+Definition finz (x : num) : Prop := valid_binary 53 1024 x = true /\ is_finite_SF x = true.
+Lemma fin_finz x : fin x -> finz x.
+Proof. destruct x; simpl; try contradiction. intros H. split; [exact H|reflexivity]. Qed.
+
+Lemma temp_bound_nonneg ta tb a : 0 <= a -> 0 <= temp_bound ta tb a.
+Proof.
+  intros Ha. unfold temp_bound. pose proof u53_lt1.
+  assert (0 <= temp_A ta tb) by (destruct ta, tb; simpl; lra).
+  assert (0 <= temp_B ta tb) by (destruct ta, tb; simpl; lra).
+  apply Rmult_le_pos; [apply Rmult_le_pos; lra|]. apply Rplus_le_le_0_compat; [apply Rmult_le_pos|]; assumption.
+Qed.
+
+(* binary64, two temperature units A and B: v -> B -> A returns v up to an ABSOLUTE error proportional to
+   2^-53 * max-ish(|v|, offsets): relative error is meaningless near the offsets (v = -273.15 C is 0 K) *)
+Theorem there_and_back_float_temperature : forall ua ub ta fa tb fb v,
+  u_conv ua = Temperature ta fa -> u_conv ub = Temperature tb fb ->
+  inverse_pair ta fa = true -> inverse_pair tb fb = true ->
+  finz v -> Rabs (Rv v) <= bpow radix2 1000 ->
+  let r2 := through_base fl v ua ub in
+  let r4 := through_base fl r2 ub ua in
+  finz r4 /\ Rabs (Rv r4 - Rv v) <= temp_bound ta tb (Rabs (Rv v)).
+Proof.
+  intros ua ub ta fa tb fb v Ca Cb Ia Ib [Vv Fv] Hv r2 r4.
+  pose proof (temp_chain ta fa tb fb v (Rv v) (isB_of_valid v Vv Fv) Ia Ib Hv) as [r [B H]].
+  assert (E : r4 = tempfn_apply fl fa (tempfn_apply fl tb (tempfn_apply fl fb (tempfn_apply fl ta v)))).
+  { unfold r4, r2, through_base, convert_from_base, convert_to_base. rewrite Ca, Cb. reflexivity. }
+  rewrite E. split; [exact (isB_valid _ _ B)|]. rewrite (isB_Rv _ _ B). exact H.
+Qed.
+
+Lemma table_inverse_pair u t f : In u all_units -> u_conv u = Temperature t f -> inverse_pair t f = true.
+Proof. intros I C. pose proof (table_wellformed u I) as W. unfold unit_wf in W. rewrite C in W. exact W. Qed.
+
+(* no category of the table mixes the temperature kind with the other two (exhaustive) *)
+Lemma table_kinds_uniform_ok :
+  forallb (fun ua => forallb (fun ub => if same_cat ua ub then Bool.eqb (is_lr ua) (is_lr ub) else true) all_units) all_units = true.
+Proof. vm_cast_no_check (eq_refl true). Qed.
+Lemma table_kinds_uniform ua ub : In ua all_units -> In ub all_units -> u_cat ua = u_cat ub -> is_lr ua = is_lr ub.
+Proof.
+  intros Ia Ib C. pose proof table_kinds_uniform_ok as H.
+  rewrite forallb_forall in H. specialize (H ua Ia). rewrite forallb_forall in H. specialize (H ub Ib).
+  rewrite (same_cat_true _ _ C) in H. apply Bool.eqb_prop. exact H.
+Qed.
+
+(* the bound for a pair of units, by kind *)
+Definition tab_bound (ua ub : unit) (a : R) : R :=
+  match u_conv ua, u_conv ub with
+  | Temperature ta _, Temperature tb _ => temp_bound ta tb a
+  | _, _ => (qq ^ 4 - 1) * a
+  end.
+
+(* ---- what a user calls, every kind: convert(v, a, b) then convert(_, b, a) for ANY two identifiers that
+   resolve to units of one category, any valid v with 2^-40 <= |v| <= 2^40 *)
+Theorem builtin_there_and_back_all_kinds : forall a b ua ub v,
+  resolve_unit a = UOk ua -> resolve_unit b = UOk ub -> u_cat ua = u_cat ub ->
+  fin v -> win (- Kv) Kv (Rv v) ->
+  exists r1 r2,
+    builtin_convert (ANum v) (AStr a) (AStr b) = UOk r1 /\
+    builtin_convert (ANum r1) (AStr b) (AStr a) = UOk r2 /\
+    Rabs (Rv r2 - Rv v) <= tab_bound ua ub (Rabs (Rv v)).
+Proof.
+  intros a b ua ub v Ra Rb C Fv Wv.
+  pose proof (resolve_unit_In _ _ Ra) as Ia. pose proof (resolve_unit_In _ _ Rb) as Ib.
+  pose proof (table_kinds_uniform ua ub Ia Ib C) as K.
+  destruct (is_lr ua) eqn:La.
+  - symmetry in K.
+    destruct (builtin_there_and_back_float a b ua ub v Ra Rb C La K Fv Wv) as [r1 [r2 [H1 [H2 H3]]]].
+    exists r1, r2. split; [exact H1|]. split; [exact H2|].
+    unfold tab_bound. unfold is_lr in La, K.
+    destruct (u_conv ua); try discriminate La; destruct (u_conv ub); try discriminate K; exact H3.
+  - symmetry in K. unfold is_lr in La, K. unfold tab_bound.
+    destruct (u_conv ua) as [| |ta fa] eqn:Ca; try discriminate La.
+    destruct (u_conv ub) as [| |tb fb] eqn:Cb; try discriminate K.
+    assert (Hv : Rabs (Rv v) <= bpow radix2 1000).
+    { destruct Wv as [_ W]. eapply Rle_trans; [exact W|apply bpow_le; discriminate]. }
+    eexists. eexists. rewrite !builtin_is_convert.
+    rewrite (same_category_converts fl v a b ua ub Ra Rb C). split; [reflexivity|].
+    rewrite (same_category_converts fl _ b a ub ua Rb Ra (eq_sym C)). split; [reflexivity|].
+    rewrite (same_ids_sym ub ua).
+    destruct (same_ids ua ub) eqn:E.
+    + replace (Rv v - Rv v) with 0 by ring. rewrite Rabs_R0. apply temp_bound_nonneg. apply Rabs_pos.
+    + apply (there_and_back_float_temperature ua ub ta fa tb fb v Ca Cb
+               (table_inverse_pair _ _ _ Ia Ca) (table_inverse_pair _ _ _ Ib Cb) (fin_finz _ Fv) Hv).
+Qed.
+
+(* temperature only, on the full range (zero and the offsets included) *)
+Theorem builtin_there_and_back_temperature : forall a b ua ub ta fa tb fb v,
+  resolve_unit a = UOk ua -> resolve_unit b = UOk ub -> u_cat ua = u_cat ub ->
+  u_conv ua = Temperature ta fa -> u_conv ub = Temperature tb fb ->
+  finz v -> Rabs (Rv v) <= bpow radix2 1000 ->
+  exists r1 r2,
+    builtin_convert (ANum v) (AStr a) (AStr b) = UOk r1 /\
+    builtin_convert (ANum r1) (AStr b) (AStr a) = UOk r2 /\
+    Rabs (Rv r2 - Rv v) <= temp_bound ta tb (Rabs (Rv v)).
+Proof.
+  intros a b ua ub ta fa tb fb v Ra Rb C Ca Cb Fv Hv.
+  pose proof (resolve_unit_In _ _ Ra) as Ia. pose proof (resolve_unit_In _ _ Rb) as Ib.
+  eexists. eexists. rewrite !builtin_is_convert.
+  rewrite (same_category_converts fl v a b ua ub Ra Rb C). split; [reflexivity|].
+  rewrite (same_category_converts fl _ b a ub ua Rb Ra (eq_sym C)). split; [reflexivity|].
+  rewrite (same_ids_sym ub ua).
+  destruct (same_ids ua ub) eqn:E.
+  - replace (Rv v - Rv v) with 0 by ring. rewrite Rabs_R0. apply temp_bound_nonneg. apply Rabs_pos.
+  - apply (there_and_back_float_temperature ua ub ta fa tb fb v Ca Cb
+             (table_inverse_pair _ _ _ Ia Ca) (table_inverse_pair _ _ _ Ib Cb) Fv Hv).
+Qed.
